@@ -81,6 +81,31 @@ _parser("C09", "Theorems C09_*: leading layout (blanks, tabs, LF / CRLF, `;`), t
 _parser("C20", "Theorems C20_*: for every registry reachable by registering trees that Parse returned (or hand-made zero trees), Parse returns exactly what parsing the text returns, in every history; and it terminates. Histories of Parse / Register* over texts including the empty text, a blank text and equal-length different texts are replayed on the real package (oracle: same error, structurally identical tree, same decode, bytes untouched) and on the model.",
         "120 histories quick / 2500 thorough")
 
+PROPS["C10"] = {
+    "case_modules": ["theories/CasesInterp.v"],
+    "race": True,
+    "technique": "Coq theorem over an interleaving model (private states, shared immutable tree: every schedule projects to the solo run) + static audit regenerated from the decode path (no store through node/Tree/arg/mod) proved empty + concurrent stress on the real decoder compared with solo decodes and with the model; race detector in the thorough tier",
+    "level_text": "Theorem C10_goroutines_do_not_influence_each_other: with private contexts and an immutable shared tree every goroutine's outcome is its solo outcome under every schedule. What entitles the model to treat the tree as immutable is the audit C10_decode_path_never_stores_through_the_tree, regenerated from the working tree on every run. The concurrent runs (2-16 goroutines, fresh and pooled contexts) must equal the solo runs, the tree dump must not change, and the solo runs must equal the Coq interpreter model.",
+    "level_note": "PARTIAL by nature: data races and the Go memory model are runtime facts no model of ours exhibits; the audit is syntactic (does not see through unsafe or user callbacks) and is trusted; the race detector (thorough tier) and the stress are observations, not proofs. Unbounded: the interleaving theorem. Bounded: 14 programs x 2-8 goroutines x 25 repetitions quick; 150 x 2-16 x 120 thorough under -race.",
+    "assumptions": ["goroutines share nothing but the parsed tree, the registries read by the decode path and the context pool", "sync.Pool hands a context to one goroutine at a time"],
+    "projection": "executed rules (calls, destination fields, context variables) and result",
+}
+PROPS["C11"] = {
+    "case_modules": [],
+    "technique": "Coq theorem about buffer reuse (capacities survive Reset: a repeated demand trace allocates nothing) + measurement on the real decoder: heap-object counts over windows of hundreds to thousands of Reset-set-Decode repetitions after warm-up, and equality of all buffer lengths/capacities between windows (verif snapshot)",
+    "level_text": "Theorems C11_*: for buffers that keep their capacity across Reset, serving the same (or a dominated) trace of demands again allocates nothing and leaves capacities unchanged. Which buffers the code has and that Reset truncates them is read through the context snapshot hook: after warm-up the snapshot must be identical window after window, and runtime.MemStats.Mallocs must not grow with the number of repetitions.",
+    "level_note": "PARTIAL by nature: allocations decided by Go's escape analysis cannot be derived from a model; they are measured (Mallocs delta, GOMAXPROCS(1)). The runtime's own bookkeeping contributes a few objects per window, so the oracle is 'fewer than half an object per repetition' plus exact equality of the capacity snapshots. Known finding D26 (default(x) with a Go-typed argument allocates) is excluded from the stream and replayed.",
+    "assumptions": ["user-registered functions and map-typed destinations are outside the property", "decodes that return an error build an error value and are not measured"],
+}
+PROPS["C13"] = {
+    "case_modules": [],
+    "race": True,
+    "technique": "Coq: lock-discipline checker run on the lock structure regenerated from db.go by the translator (proved true by computation) + invariant proof for a readers-writer-lock interleaving model (readers see only completed writer operations; quiescent value = serial application) + the sequential refinement of C12; concurrent stress on the real package with version/monotonicity/completeness oracles and a deadlock watchdog; race detector in the thorough tier",
+    "level_text": "C13_lock_discipline_of_db_go is re-proved on every run over the audit extracted from the working tree: every access to the four shared fields lies in a lock region of the right kind, no locking method is called with the lock held, every path releases it. Given that, C13_reader_sees_complete_states and C13_quiescent_value_is_serial show in an interleaving model with a non-atomic writer that readers never see a half-installed registration and that writers are linearized at their critical sections; C12 gives the sequential meaning. W/R/P goroutines hammer the real registry; every decode must run a complete tree registered for its identifier, versions must respect real time, nothing may deadlock.",
+    "level_note": "PARTIAL by nature: sync.RWMutex and the Go memory model are assumed to behave as the interleaving model says; a data race is invisible to the model and is looked for with the race detector (thorough tier) only. The audit is syntactic and trusted. Unbounded: the theorems. Bounded: 3 rounds x up to 20 goroutines x 400 ops quick; 12 x 4000 thorough.",
+    "assumptions": ["every access to the registry goes through db.go (audited: registry_fields_used_outside_db_go = [])"],
+}
+
 NOT_YET = {}
 
 
